@@ -16,10 +16,12 @@ LEVEL_TEXT = ('Every multi-conformation layout of a bounded alphabet (a peptide 
               'from the others without merging residue types, then take the arithmetic mean over the conformations '
               'that contain the group" is evaluated on the per-conformation API records and compared with the AVR '
               'record and the written summary; single-conformation and identical-model equivalences are checked on '
-              'docked pairs, clusters and the multi-conformation files shipped with the tests.')
+              'docked pairs, clusters and the multi-conformation files shipped with the tests; a second varying residue with its '
+              'own tag set, insertion-code twins of the varying residue, models without closing TER and a disulfide that exists '
+              'in some conformations only are part of the alphabet.')
 LEVEL_NOTE = ('Reference model: completion/mean functions in pkmc/checks/c08.py. Per-conformation values are taken from '
               'the implementation (their correctness is the subject of other properties). More than 3 conformations '
-              'and more than one varying residue are outside the bound.')
+              'and more than two varying residues are outside the bound.')
 TECHNIQUE = 'exhaustive enumeration of conformation layouts; reference model (completion + arithmetic mean) compared step by step with the real top-up and averaging'
 ASSUMPTIONS = ['a group is identified across conformations by chain, residue number, insertion code, defining atom and type']
 
@@ -95,7 +97,47 @@ def lys_items(case, lys):
     return out
 
 
+def build_bridge(case, seed=0):
+    """Two docked cysteines whose second SG has a bonded (2.03 A) and a free (3.6 A) position: per alt-loc tag or per MODEL."""
+    s = gen.pair('CYS', 'CYS', 2.03)
+    sg = [a for a in s.atoms if a.name == 'SG']
+    u = [sg[1].x - sg[0].x, sg[1].y - sg[0].y, sg[1].z - sg[0].z]
+    n = sum(c * c for c in u) ** 0.5
+    far = [int(round(c / n * 1570)) for c in u]
+
+    def state(items, which, tag=' '):
+        out = []
+        for it in items:
+            if isinstance(it, str):
+                out.append(it)
+                continue
+            b = it.clone()
+            if it is sg[1]:
+                b.alt = tag
+                if which == 'free':
+                    b.x, b.y, b.z = b.x + far[0], b.y + far[1], b.z + far[2]
+            out.append(b)
+        return out
+    items = []
+    if case['how'] == 'alt':
+        for it in s.items:
+            if it is sg[1]:
+                for tag, which in case['layout']:
+                    items += state([it], which, tag)
+            else:
+                items.append(it if isinstance(it, str) else it.clone())
+    else:
+        for num, which in case['layout']:
+            items += ['MODEL     %4d\n' % num] + state(s.items, which) + ['ENDMDL\n']
+    out = gen.S(items)
+    out.translate(gen.seed_offset(seed))
+    out.renumber_serials()
+    return out
+
+
 def build(case, seed=0):
+    if case['kind'] == 'bridge':
+        return build_bridge(case, seed)
     pre, mid, post, lys = base_parts()
     pos = case.get('pos', 'middle')
     twin = case.get('twin')
@@ -144,7 +186,7 @@ def build(case, seed=0):
         for num, variant in case['layout']:
             items.append('MODEL     %4d\n' % num)
             items += [a.clone() for a in pre] + variant_atoms(mid, variant) + [a.clone() for a in post]
-            items += ['TER\n'] + [a.clone() for a in lys] + ['TER\n', 'ENDMDL\n']
+            items += ['TER\n'] + [a.clone() for a in lys] + ([] if case.get('noter') else ['TER\n']) + ['ENDMDL\n']
     s = gen.S(items)
     s.translate(gen.seed_offset(seed))
     s.renumber_serials()
@@ -368,6 +410,17 @@ def layouts(tier):
                 if all(x == 'absent' for x in vs):
                     continue
                 cases.append(dict(kind='model', layout=list(zip(nums, vs)), twin=twin))
+    # models whose last chain is closed neither by TER nor by OXT
+    for nums in ((1, 2), (1, 2, 3)):
+        for vs in itertools.product(('ASP', 'ALA', 'ASPnoCG'), repeat=len(nums)):
+            cases.append(dict(kind='model', layout=list(zip(nums, vs)), noter=True))
+    # a disulfide that exists in some conformations only
+    for lay in itertools.product(('bonded', 'free'), repeat=2):
+        cases.append(dict(kind='bridge', how='alt', layout=list(zip(('A', 'B'), lay))))
+        cases.append(dict(kind='bridge', how='model', layout=list(zip((1, 2), lay))))
+    for lay in itertools.product(('bonded', 'free'), repeat=3):
+        cases.append(dict(kind='bridge', how='alt', layout=list(zip(('A', 'B', 'C'), lay))))
+        cases.append(dict(kind='bridge', how='model', layout=list(zip((1, 2, 3), lay))))
     mv = VARIANTS + ('absent',)
     for nums in ((1,), (1, 2), (2, 5), (1, 10), (1, 2, 3)):
         if tier == 'quick' and nums == (2, 5):
@@ -408,7 +461,7 @@ def plan(tier, seed):
 def run_case(case, ctx, acc):
     k = case['kind']
     viols = []
-    if k in ('alt', 'model', 'alt-atom'):
+    if k in ('alt', 'model', 'alt-atom', 'bridge'):
         s = build(case, ctx.seed)
         text = gen.to_text(s)
         mol = pk.run(text, write=True)
